@@ -392,6 +392,29 @@ class SchemaGen:
                 out.append(self.s_array(d + 1))
         return out
 
+    def s_oneof_objects(self, d):
+        """oneOf of object branches made exclusive by a distinct required member each; optionally all branches carry
+        a single-valued string discriminator that is required in some branches only (so it is NOT a serde tag)."""
+        self.use("oneof_objects")
+        n = self.r.randrange(2, 4)
+        names = self.sample([p for p in PROP_NAMES if p not in ("kind", "type")], n * 2)
+        disc = self.pick([None, "kind", "type"])
+        vals = self.variant_names(n)
+        required_disc = [self.chance(0.5) for _ in range(n)]
+        if disc and all(required_disc):
+            required_disc[self.r.randrange(n)] = False
+        branches = []
+        for i in range(n):
+            own, other = names[2 * i], names[2 * i + 1]
+            props = {own: self.simple(), other: self.pick([{"type": "integer"}, {"type": "string"}, {"type": "boolean"}])}
+            req = [own]
+            if disc:
+                props[disc] = {"type": "string", "enum": [vals[i]]}
+                if required_disc[i]:
+                    req.append(disc)
+            branches.append({"type": "object", "properties": props, "required": req, "additionalProperties": False})
+        return {"oneOf": branches}
+
     def s_oneof_untagged(self, d):
         self.use("oneof_untagged")
         return {"oneOf": self.disjoint_branches(d)}
@@ -454,6 +477,7 @@ class SchemaGen:
                 ("oneof_internal", lambda: self.s_oneof_internal(d), 0.7),
                 ("oneof_adjacent", lambda: self.s_oneof_adjacent(d), 0.7),
                 ("oneof_untagged", lambda: self.s_oneof_untagged(d), 0.7),
+                ("oneof_objects", lambda: self.s_oneof_objects(d), 0.5),
                 ("anyof_exclusive", lambda: self.s_anyof_exclusive(d), 0.5),
                 ("allof_objects", lambda: self.s_allof_objects(d), 0.6)]
         if not no_null:
@@ -477,6 +501,7 @@ class SchemaGen:
                 ("oneof_internal", lambda: self.s_oneof_internal(0), 1),
                 ("oneof_adjacent", lambda: self.s_oneof_adjacent(0), 1),
                 ("oneof_untagged", lambda: self.s_oneof_untagged(0), 1),
+                ("oneof_objects", lambda: self.s_oneof_objects(0), 0.7),
                 ("string_enum", self.s_string_enum, 1),
                 ("string", self.s_string, 1),
                 ("allof_objects", lambda: self.s_allof_objects(0), 0.7)]
